@@ -49,7 +49,9 @@ from harness import checklib, tlcrun, livelib  # noqa: E402
 from harness.livelib import T  # noqa: E402
 
 FINDING = "D6"
-FINDING_ZOMBIE = "D16"      # proposed id: surplus workers trimmed by manage_processes are never waited for
+# D4 (manage_processes drops a surplus worker right after kill_process, without waitpid), seen from C08: the
+# trimmed worker is a zombie until the next periodic check; a shutdown that comes first exits leaving it behind
+FINDING_ZOMBIE = "D4"
 SIGNALS = ("TERM", "INT", "QUIT")
 STIMULI = SIGNALS + ("quit", "quit_waiting")
 OPS = {"restart_stub": ("restart", {"name": "stub", "waiting": True}, "watcher_restart"),
